@@ -107,7 +107,11 @@ fn compute_must(w: &mut World) {
             Kind::Stream => match &s.stream {
                 Some(st) => {
                     let st = st.borrow();
-                    (!st.queue.is_empty() || (st.ended && s.stream_none == 0)).then_some("stream item ready")
+                    // (a hidden item counts once the stream has issued the self-wake that announces it)
+                    // (an item that still awaits its self-wake is owed a poll, not yet a callback: it is at the head
+                    // of the queue and listed in `hidden`)
+                    let head_hidden = st.queue.front().is_some() && st.queue.front() == st.hidden.front();
+                    ((!st.queue.is_empty() && !head_hidden) || (st.ended && st.queue.is_empty() && s.stream_none == 0)).then_some("stream item ready")
                 }
                 None => None,
             },
@@ -239,6 +243,7 @@ fn after_ok_dispatch(timeout: Option<Duration>, elapsed: Duration) {
                 Kind::Ping => w.alarm("C03.no_lost", "ping-not-delivered", detail.clone()),
                 Kind::Chan { .. } => w.alarm("C04.no_stranded", "message-stranded", detail.clone()),
                 Kind::Exec => w.alarm("C10.polled_after_wake", "runnable-task-not-polled", detail.clone()),
+                Kind::Stream => w.alarm("C10.stream_in_order", "stream-item-not-delivered", detail.clone()),
                 _ => {}
             }
             if after_enable {
